@@ -1152,6 +1152,11 @@ func (c *Conn) readAll(r io.Reader, size int) (*[]byte, error) {
 		n, err := r.Read((*pbuf)[len(*pbuf):cap(*pbuf)])
 		if n > 0 {
 			*pbuf = (*pbuf)[:len(*pbuf)+n]
+			// a pooled buffer may have more capacity than the limit.
+			if c.isMessageTooLarge(len(*pbuf)) {
+				c.Engine.BodyAllocator.Free(pbuf)
+				return nil, ErrMessageTooLarge
+			}
 		}
 		if err != nil {
 			if err == io.EOF {
